@@ -3,7 +3,8 @@
    where Logger::processMessage flushes relative to process(lmsg), for which message types and thread
    condition; whether recursiveFlush flushes every Sink and enters nested Pipelines; whether
    FileSink::flush is QFile::flush; whether RotatingFileSink::send asks size() before writing; whether
-   IODeviceSink::send flushes by itself.
+   IODeviceSink::send flushes by itself.  [src_fatal_cfg_nothread] is the same reading with
+   QTLOGGER_NO_THREAD defined (the documented single-threaded configuration).
    Removing the flush, moving it before process(lmsg) or into the sink, restricting it to another
    message type, not descending, or a FileSink::flush that does nothing makes
    [C11_source_configuration_good] fail.
@@ -126,6 +127,82 @@ Theorem C11_null_entries_are_inert : forall pol rej l msgs r,
   = survivors (run_fatal src_fatal_cfg pol rej (TPipe l) msgs r).
 Proof. intros. rewrite !C11_fatal_reaches_disk. reflexivity. Qed.
 Print Assumptions C11_null_entries_are_inert.
+
+(* ---- the logger is RECONFIGURED while it runs ----
+   Histories are now lists of events: a message, an explicit logger.flush(), or a reconfiguration
+   (append / sendToFile on the logger or on an existing nested pipeline, remove of a handler,
+   clearSinks) between two messages.  Full strength: for every initial tree, every such history, every
+   buffering policy and fault pattern, at abort the file of every healthy file sink of the FINAL
+   configuration = what the logger WITHOUT ANY BUFFERING would have written ([expected_ev]: a
+   specification in which no configuration, no policy and no flush occurs).  In particular a sink that
+   was added after an earlier flush() - in place of a removed one, or inside a nested pipeline that
+   already existed - is reached by the fatal flush. *)
+Theorem C11_fatal_reaches_disk_after_reconfiguration :
+  forall (pol : policy) (rej : reject) (t : tree) (evs : list event) (r : rec),
+  survivors (run_events_fatal src_fatal_cfg pol rej t evs r) = expected_ev rej t evs r.
+Proof. exact (fatal_reaches_disk_ev src_fatal_cfg C11_source_configuration_good). Qed.
+Print Assumptions C11_fatal_reaches_disk_after_reconfiguration.
+
+(* the unbuffered specification is the closed form [expected] on histories of messages only *)
+Theorem C11_reconfiguration_spec_agrees_with_closed_form : forall rej t msgs r,
+  expected_ev rej t (map EMsg msgs) r = expected rej t (msgs ++ [(Fatal, r)]).
+Proof. exact expected_ev_msgs. Qed.
+Print Assumptions C11_reconfiguration_spec_agrees_with_closed_form.
+
+(* explicit flush() calls, wherever they are in the history, change nothing of what is demanded *)
+Theorem C11_explicit_flush_is_invisible : forall rej t evs1 evs2 r,
+  expected_ev rej t (evs1 ++ EFlush :: evs2) r = expected_ev rej t (evs1 ++ evs2) r.
+Proof. exact expected_ev_flush. Qed.
+Print Assumptions C11_explicit_flush_is_invisible.
+
+(* model and specification agree on which sinks the final configuration has (the check uses it to find the files) *)
+Theorem C11_final_configuration_sinks : forall pol rej t evs,
+  map (fun sg => sid (fst sg)) (gsinks (run_events src_fatal_cfg pol rej t evs)) = final_sids rej t evs.
+Proof. exact (final_sids_model src_fatal_cfg). Qed.
+Print Assumptions C11_final_configuration_sinks.
+
+(* the boolean oracle the check evaluates on the record ids found in the real files (event histories) *)
+Theorem C11_oracle_with_reconfiguration_holds : forall pol rej t evs r,
+  prop_c11_ev_b rej t evs r (ids_of (survivors (run_events_fatal src_fatal_cfg pol rej t evs r))) = true.
+Proof. exact (oracle_ev_holds src_fatal_cfg C11_source_configuration_good). Qed.
+Print Assumptions C11_oracle_with_reconfiguration_holds.
+
+(* ---- the documented single-threaded configuration (-DQTLOGGER_NO_THREAD) ----
+   [src_fatal_cfg_nothread] is the same source read as the preprocessor leaves it when
+   QTLOGGER_NO_THREAD is defined.  The flush after a fatal message must be there as well: a flush that
+   sits inside `#ifndef QTLOGGER_NO_THREAD` breaks this obligation. *)
+Theorem C11_src_flush_in_every_configuration :
+  cfg_goodb src_fatal_cfg_nothread = true /\ flush_on_fatal_nothread = true.
+Proof. vm_compute. split; reflexivity. Qed.
+Print Assumptions C11_src_flush_in_every_configuration.
+
+Theorem C11_fatal_reaches_disk_no_thread :
+  forall (pol : policy) (rej : reject) (t : tree) (evs : list event) (r : rec),
+  survivors (run_events_fatal src_fatal_cfg_nothread pol rej t evs r) = expected_ev rej t evs r.
+Proof. exact (fatal_reaches_disk_ev src_fatal_cfg_nothread (proj1 C11_src_flush_in_every_configuration)). Qed.
+Print Assumptions C11_fatal_reaches_disk_no_thread.
+
+(* non-vacuity of the reconfiguration theorems: format + file sink 0 + a nested pipeline behind a
+   warning-and-above filter; one message, flush(), then (A) the file sink is replaced by sink 1 (same
+   number of top-level handlers) and (B) sink 2 is added INSIDE the existing nested pipeline; three
+   more messages, qFatal.  The new sinks hold everything logged after they were added, fatal record
+   included; without the flush on fatal both new files are empty. *)
+Example C11_reconfiguration_nonvacuous :
+  let warn := fun m : msg => negb (is_type Debug m) && negb (is_type Info m) in
+  let t := TPipe [TOther; TSink (fresh 0 false false); TPipe [TFilter warn]] in
+  let evs := [EMsg (info 0 11); EFlush;
+              EOp (ORemove [] 1%nat); EOp (OAppend [] (TSink (fresh 1 false false)));
+              EOp (OAppend [1%nat] (TSink (fresh 2 false false)));
+              EMsg (Warning, mk 1 11); EMsg (info 2 11); EMsg (Warning, mk 3 11)] in
+  final_sids no_faults t evs = [2; 1]
+  /\ ids_of (expected_ev no_faults t evs (mk 4 14)) = [Some [1; 3; 4]; Some [1; 2; 3; 4]]
+  /\ ids_of (survivors (run_events_fatal src_fatal_cfg qfile_policy no_faults t evs (mk 4 14))) = [Some [1; 3; 4]; Some [1; 2; 3; 4]]
+  /\ ids_of (survivors (run_events_fatal src_fatal_cfg_nothread qfile_policy no_faults t evs (mk 4 14))) = [Some [1; 3; 4]; Some [1; 2; 3; 4]]
+  /\ ids_of (survivors (run_events_fatal (with_pos src_fatal_cfg FNone) qfile_policy no_faults t evs (mk 4 14))) = [Some []; Some []]
+  /\ (* killed right after the explicit flush: what the flush had put on disk *)
+  ids_of (survivors (run_events src_fatal_cfg qfile_policy no_faults t [EMsg (info 0 11); EFlush])) = [Some [0]]
+  /\ ids_of (survivors (run_events src_fatal_cfg qfile_policy no_faults t [EMsg (info 0 11)])) = [Some []].
+Proof. vm_compute. repeat split. Qed.
 
 (* non-vacuity: a formatter, a debug-only trace file in a nested pipeline, a sink on a full device in
    front of a healthy plain sink, a nested pipeline holding a size-limited rotating sink behind a
